@@ -120,8 +120,30 @@ def cvalue(v):
     return "(VNum %s)" % cnum(v)
 
 
+def cjson(doc):
+    if doc is None:
+        return "(@JNull N)"
+    if isinstance(doc, bool):
+        return "(@JBool N %s)" % ("true" if doc else "false")
+    if isinstance(doc, (int, float)):
+        return "(JNum %s)" % cnum(doc)
+    if isinstance(doc, str):
+        return "(@JStr N %s)" % cstr(doc)
+    if isinstance(doc, (list, tuple)):
+        return "(@JArr N %s)" % clist(cjson(x) for x in doc)
+    if isinstance(doc, dict):
+        return "(@JObj N %s)" % clist("(%s, %s)" % (cstr(str(k)), cjson(v)) for k, v in doc.items())
+    raise TypeError(doc)
+
+
 def cop(op):
     t = op[0]
+    if t == "tojson":
+        return "OToJson %d" % op[1]
+    if t == "fromjson":
+        return "OFromJson %s" % cjson(op[1])
+    if t == "jsonrt":
+        return "OJsonRT %d" % op[1]
     if t == "new":
         return "ONew %s" % cspec(op[1])
     if t == "fill":
@@ -144,7 +166,7 @@ def cop(op):
 
 
 HEADER = """From Coq Require Import ZArith List String.
-From Hgm Require Import NumOps F64 Xq Agg Ops Expr Build Snap Run Forest RunId.
+From Hgm Require Import NumOps F64 Xq Agg Ops Expr Build Snap Json Run Forest RunId.
 Import ListNotations.
 Open Scope Z_scope. Open Scope string_scope.
 Set Printing Width 100000000. Set Printing Depth 100000000.
